@@ -93,7 +93,7 @@ TAGS = {
 
 # blocked operation -> properties that rely on it waiting
 PROBE_TAGS = {
-    "send": {"C05", "C10", "C14", "C02"},
+    "send": {"C05", "C10", "C14", "C02", "C01"},
     "op:dispatch": {"C01", "C02", "C04", "C05", "C06", "C18"},
     "op:stop": {"C04", "C02"}, "op:close": {"C04", "C02"}, "op:drop_store": {"C15", "C04"},
     "join": {"C04", "C15", "C11", "C10"}, "stop.drain": {"C04", "C15", "C11"},
@@ -354,6 +354,8 @@ def do_gen(ctx, inst, limit):
             if w in long_for and w not in seen_long:
                 seen_long.add(w)
                 ms = 1500
+                if w == "send:D" and ctx.pid in ("C01", "C05"):
+                    ms = 3600      # longer than any of the library's own 3 s timeouts: this wait has none
             pj.append(cover.probe_json(g, b, "p%d" % i, ms))
         if pj:
             pres, ppath, ptr = replay_behaviours(inst, pj, d, "probes")
